@@ -387,7 +387,12 @@ func (sc *c16CKKS) runRefresh(d *c16Deploy, ct *rlwe.Ciphertext, m []*bignum.Com
 	// same ring, with the parties' secrets for that chain
 	cpOut, sksOut, idealOut, scOut := cp, d.sks, d.ideal, sc
 	if ch.Chance("switch-parameters", 1, 3) {
-		spec := catalog.DrawRLWESpec(ch, catalog.SpecOpts{MinLogN: cp.LogN(), MaxLogN: cp.LogN(), MinQ: 1, MaxQ: 4, MinP: 0, MaxP: 1, MinBits: 42, MaxBits: 58})
+		logNOut := cp.LogN()
+		if ch.Chance("larger-output-ring", 1, 3) {
+			logNOut++
+			ctx.Count("probe.output-ring-of-larger-degree", 1)
+		}
+		spec := catalog.DrawRLWESpec(ch, catalog.SpecOpts{MinLogN: logNOut, MaxLogN: logNOut, MinQ: 1, MaxQ: 4, MinP: 0, MaxP: 1, MinBits: 42, MaxBits: 58})
 		spec.RingType = cp.RingType()
 		logScale := 20 + ch.Draw("out-log-scale", 12)
 		key := fmt.Sprintf("ckks/%s/S%d", spec.Key(), logScale)
@@ -570,7 +575,7 @@ func (sc *c16CKKS) runRefresh(d *c16Deploy, ct *rlwe.Ciphertext, m []*bignum.Com
 		return false
 	}
 	// hard slot-domain tolerance: n_ring * (coefficient error) / scale on both sides
-	nRing := float64(params.N())
+	nRing := float64(paramsOut.N())
 	sb, _ := new(big.Float).SetInt(d.shareB).Float64()
 	inScale, _ := ct.Scale.Value.Float64()
 	outScale, _ := def.Value.Float64()
